@@ -150,8 +150,9 @@ class AliasWorld(WorldBase):
         if what == 'roundtrip':
             return {'op': 'roundtrip', 'h': h, 'how': ch.choice(['pickle', 'deepcopy', 'copy', 'deepcopy_with_array', 'pickle_with_array'])}
         if what == 'selector':
-            return {'op': 'selector', 'h': h, 'iface': ch.choice(['iloc', 'loc', 'getitem', 'drop_iloc', 'assign_iloc', 'mask_iloc', 'masked_array_iloc', 'bloc', 'assign_bloc', 'via_str', 'via_dt', 'via_T', 'via_fill_value', 'iter']),
-                    'key': ch.choice([0, 1, {'slice': [0, 2]}, [0], [1, 0], {'bools': 1}, {'pair': [0, 0]}, {'pair': [{'slice': [0, 2]}, 0]}, {'pair': [[0, 1], [0]]}]),
+            return {'op': 'selector', 'h': h, 'iface': ch.choice(['iloc', 'loc', 'getitem', 'drop_iloc', 'assign_iloc', 'mask_iloc', 'masked_array_iloc', 'bloc', 'assign_bloc', 'via_str', 'via_dt', 'via_T', 'via_fill_value', 'iter', 'assign_array', 'assign_array']),
+                    'key': ch.choice([0, 1, {'slice': [0, 2]}, [0], [1, 0], {'bools': 1}, {'pair': [0, 0]}, {'pair': [{'slice': [0, 2]}, 0]}, {'pair': [[0, 1], [0]]},
+                                      {'range': [0, 2]}, {'ixkey': [0, 1]}, {'serkey': [1, 0]}, True]),
                     'extra': ch.randint(0, 47)}
         if what == 'operator':
             return {'op': 'operator', 'h': h, 'which': ch.choice(['add', 'mul', 'eq', 'neg', 'invert', 'abs', 'matmul', 'lt', 'radd', 'self', 'floordiv', 'and', 'round', 'round1', 'rmatmul']),
@@ -170,7 +171,7 @@ class AliasWorld(WorldBase):
         op = {'op': 'new', 'kind': kind, 'out': self.next_h, 'nr': nr, 'nc': nc, 'dk': dk,
               'writeable': ch.chance(0.8), 'index_array': ch.chance(0.6), 'iw': ch.chance(0.8),
               'layout': ch.choice(['2d', 'columns', 'mixed', 'fortran', 'view', 'strided']),
-              'route': ch.randint(0, 25), 'name': ch.choice([None, 'nm'])}
+              'route': ch.randint(0, 27), 'name': ch.choice([None, 'nm'])}
         return op
 
     # ------------------------------------------------------------------ helpers
@@ -214,6 +215,12 @@ class AliasWorld(WorldBase):
         if isinstance(spec, dict):
             if 'slice' in spec:
                 return slice(*spec['slice'])
+            if 'range' in spec:
+                return range(*spec['range'])  # iterable keys that are neither lists nor arrays
+            if 'ixkey' in spec:
+                return self.sf.Index(spec['ixkey'])
+            if 'serkey' in spec:
+                return self.sf.Series(spec['serkey'])
             if 'np' in spec:
                 return {'float': float, 'str': str, 'object': object}[spec['np']]
             if 'fn' in spec:
@@ -494,7 +501,7 @@ class AliasWorld(WorldBase):
                 return cls(a, index=index_arg(nr, 0), dtype=a.dtype, name=name), 'Series(array,dtype)'
             if kind in ('Frame', 'FrameHE'):
                 cls = getattr(sf, kind)
-                r = route % 13
+                r = route % 14
                 layout = op['layout']
                 if r == 0:
                     a = self._keep(self._mk_array(nr, dk, w, nc, layout), 'Frame 2d values')
@@ -531,6 +538,13 @@ class AliasWorld(WorldBase):
                     self.go_sources.append(g)
                     how = route % 3
                     return (g.to_frame() if how == 0 else cls(g) if how == 1 else g.to_frame_he().to_frame()), 'Frame(from grow-only source)'
+                if r == 13:
+                    # converted from a pandas DataFrame with nullable / string extension columns (to_numpy makes new buffers)
+                    import pandas
+                    df = pandas.DataFrame({'a': pandas.array([1, None, 3][:max(1, min(nr, 3))], dtype='Int64'),
+                                           'b': pandas.array([True, None, False][:max(1, min(nr, 3))], dtype='boolean'),
+                                           'c': ['x', 'y', 'z'][:max(1, min(nr, 3))]})
+                    return cls.from_pandas(df, name=name), 'Frame.from_pandas(extension dtypes)'
                 if r == 12:
                     # parsed from delimited text (a private buffer made by the parser): one row and several rows
                     import io
@@ -767,6 +781,17 @@ class AliasWorld(WorldBase):
                 return obj.drop.iloc[key]
             if iface == 'assign_iloc':
                 return obj.assign.iloc[key](0)
+            if iface == 'assign_array':
+                # assignment of an array the caller keeps (and writes to later), over whole columns / rows / a Series
+                n = len(obj.index) if hasattr(obj, 'index') else len(obj)
+                if isinstance(obj, self.sf.Frame):
+                    k = min(2, obj.shape[1])
+                    a = self._keep(np.arange(n * k, dtype=float).reshape(n, k) + 0.25, 'assigned 2-D value')
+                    return [obj.assign.iloc[:, 0:k](a), obj.assign[list(obj.columns[:k])](a), obj.assign.loc[:, list(obj.columns[:k])](a)][x % 3]
+                if isinstance(obj, self.sf.Series):
+                    a = self._keep(np.arange(n, dtype=float) + 0.25, 'assigned 1-D value')
+                    return obj.assign.iloc[:](a) if x % 2 else obj.assign.loc[list(obj.index)](a)
+                return None
             if iface == 'mask_iloc':
                 return obj.mask.iloc[key]
             if iface == 'masked_array_iloc':
